@@ -213,13 +213,15 @@ CHECKS.update({
                 "explicit schedule. A second interleaving model (gets against a running merge pass: DashMap guard kept across the read, "
                 "copy-and-re-point under the entry lock, unlinks afterwards) proves for every schedule that no get reads an unlinked "
                 "file, every get returns the value at its lookup and the merge never changes the map; the variant without the guard "
-                "is refuted. Partial: the two models are not composed; rollover is not modelled. The check forces 7 targeted "
-                "interleavings on the real threads by parking at verif schedule points (three of them are also run through the model "
+                "is refuted. A third model (puts that replace the active file: append, create the next file, publish; per-reader, per-file "
+                "mappings opened at first use and renewed when they do not cover the record) proves for every schedule that no reader finds "
+                "a file missing or a record outside its mapping, that every get returns the value at its lookup and that no step of a put "
+                "waits for a reader; the variant that never renews is refuted. Partial: the three models are not composed. The check forces 8 "
+                "targeted interleavings on the real threads by parking at verif schedule points (four of them are also run through the models "
                 "and the per-thread results compared), runs free stress with merges and rollovers, and decides every timed history "
                 "with a Wing-Gong-Lowe linearizability search; probes afterwards that reads are still served.",
         "design_ref": "DESIGN.md section 8, C04",
-        "note": "Mutex, DashMap shard atomicity, ArrayQueue and mmap coherence are modelled, not verified. Rollover concurrency "
-                "is covered by forced schedules and stress only. The window inside one BufWriter::write has no schedule point.",
+        "note": "Mutex, DashMap shard atomicity, ArrayQueue and mmap coherence are modelled, not verified. The window inside one BufWriter::write has no schedule point.",
         "technique": "Coq proof over an interleaving LTS (safety, linearizability by simulation, deadlock freedom) + forced schedules "
                      "and stress on real threads decided by a linearizability checker",
     },
